@@ -92,7 +92,7 @@ Apply(s, o) ==
       [] o.op = "slice"   -> R2(SliceM(m, o.a, o.beg, o.end, o.s), 0)
       [] o.op = "unslice" -> R2(UnsliceM(m, o.s, o.a), 0)
       [] o.op = "reset"   -> R2(ResetM(m, o.a), 0)
-      [] o.op = "release" -> ReleaseM(m, o.a)
+      [] o.op = "release" -> LET r == ReleaseM(m, o.a) IN IF o.nob THEN [r EXCEPT !.ret = 0] ELSE r   \* nothing comes back through a NULL out-parameter
       [] o.op = "at"      -> LET r == AtOp(s, o.a, o.i) IN R2([m EXCEPT !.ab = r.ab], r.ret)
       [] o.op = "data"    -> R2(m, DataOp(s, o.a))
       [] o.op = "size"    -> R2(m, s.obj[o.a].len)
@@ -155,7 +155,7 @@ Contract(o, pre, post, nlive, tt, out, ev, ret) ==
             [] o.op = "release" ->
                  LET d == po[o.a].t
                      sole == d # 0 /\ pre.desc[d].ext # 0 /\ Users(pre, d) = {o.a} IN
-                 IF sole THEN ret = pre.desc[d].ext /\ sameBut({o.a}) /\ tt[o.a] = 0 /\ post.obj[o.a].len = 0
+                 IF sole THEN (o.nob \/ ret = pre.desc[d].ext) /\ sameBut({o.a}) /\ tt[o.a] = 0 /\ post.obj[o.a].len = 0
                  ELSE ret = 0 /\ sameBut({}) /\ ev = <<>>
             [] o.op = "at" ->
                  \* an address inside the live underlying buffer of this object
